@@ -6,17 +6,17 @@ IntervalTransformedParameter -- hyperbolic and tangent variants --,
 PlaceboTransformedParameter), generic over `Scalar α`.
 
 Transcription of the code that exists (after the `fix:` commits recorded in
-findings/C11.json, three `fix:` commits): same operations in the same order, so that the `Float`
+findings/C11.json): same operations in the same order, so that the `Float`
 instance reproduces the C++ bit for bit.
 
-* `paramSet` is `Parameter::setValue` (Parameter.cpp:55-64) of a parameter with no
+* `paramSet` is `Parameter::setValue` (Parameter.cpp:72-83) of a parameter with no
   constraint and precision 0: the new value is stored only if `|value - value_| > 0`
   (so a NaN is never stored, and `-0.0` does not replace `0.0`).
 * The `Parameter` constructor (Parameter.cpp:34-43, after the C01 `fix:` "Parameter constructor
   checks the initial value against the constraint") stores the initial value directly -- it no
   longer goes through `setValue` from 0 -- so a NaN initial value (e.g. `atanh` of an argument
-  below -1 when the value is closer than TINY to an open bound) *is* stored by the constructors
-  `RT.new`, `IT.new`, `TP.placebo`.
+  below -1 when `IntervalTransformedParameter` is built with a value outside its bounds) *is*
+  stored by the constructors `IT.new`, `TP.placebo` (`RT.new` goes through `setOriginalValue`).
 * `std::pow(e, 2)` is written `sq e = e * e`: g++ compiles `pow(x, 2)` to `x * x`
   (checked in the generated assembly at -O1), over the reals the two agree
   (`Real.rpow_two`); `std::pow(scale_, 3)` stays a call to libm `pow`.
@@ -31,7 +31,7 @@ variable {α : Type} [Scalar α]
 
 def two : α := ofInt 2
 
-/-- `Parameter::setValue` without constraint, precision 0 (Parameter.cpp:55). -/
+/-- `Parameter::setValue` without constraint, precision 0 (Parameter.cpp:72-83). -/
 def paramSet (cur v : α) : α :=
   if gtb (Scalar.abs (v - cur)) (zero / two) then v else cur
 
@@ -63,7 +63,7 @@ def setOriginal (t : RT α) (value : α) : Option (RT α) :=
       then paramSet x3 ((-t.scale) * (value + one - t.bound)) else x3
     some { t with x := x4 }
 
-/-- the constructor (TransformedParameter.h:100-108): `Parameter(name, 1.)` then `setOriginalValue` -/
+/-- the constructor (TransformedParameter.h:99-106): `Parameter(name, 1.)` then `setOriginalValue` -/
 def new (value bound : α) (positive : Bool) (scale : α) : Option (RT α) :=
   setOriginal { scale := scale, bound := bound, positive := positive, x := one } value
 
@@ -138,7 +138,7 @@ def d2 (pi : α) (t : IT α) : α :=
 
 end IT
 
-/-! ### PlaceboTransformedParameter (TransformedParameter.h:244-270) and the common interface -/
+/-! ### PlaceboTransformedParameter (TransformedParameter.h:245-269) and the common interface -/
 
 inductive TP (α : Type) where
   | r (t : RT α)
